@@ -86,6 +86,9 @@ CORPUS = [
     ("corpus:F140-initial-case", "while true:\n    x = x + y**2 + z\n    y = y - y**2\n    z = 1\nend\n", 1),
     ("corpus:F141-random-walk-square",
      "z = 0\nwhile true:\n    z = z + 1 {1/2} z - 1\n    x = x + y**2 + z**2\n    y = y - y**2\nend\n", 1),
+    # the same defect on the `handle_solvable_loop` branch: y in {0, -1} is finite, every variable is effective
+    ("corpus:F141-all-effective",
+     "y = 0\nwhile true:\n    x, y = x + 3*y**2 + (1/2)*z + z**2, y + y**2 - 1\n    z = Normal(0, 4)\nend\n", 1),
 ]
 
 # ------------------------------------------------------------------------------------------------
@@ -206,6 +209,9 @@ def build_cases(tier):
         c["kind"] = "gen"
         c["text"] = H.program_str(c["program"])
         cases.append(c)
+    only = os.environ.get("C14_ONLY")          # development aid: comma-separated prefixes of case ids
+    if only:
+        cases = [c for c in cases if any(c["id"].startswith(p) for p in only.split(","))]
     return cases
 
 
@@ -256,13 +262,23 @@ def model_answers(reqs, chk=None):
     (high-degree updates with continuous draws) are retried with fewer iterations"""
     if not reqs:
         return []
-    answers = model_batch_parallel(reqs, timeout=25)
+
+    def batch(rs, timeout):
+        import time
+        for attempt in range(4):
+            try:
+                return model_batch_parallel(rs, timeout=timeout)
+            except OSError:
+                # the executable is being relinked by a concurrent `lake build` (other builders): wait and retry
+                time.sleep(15)
+        return model_batch_parallel(rs, timeout=timeout)
+    answers = batch(reqs, 25)
     for nm in (3, 2, 1):
         idx = [i for i, (q, a) in enumerate(zip(reqs, answers))
                if q["op"] == "moments" and not a.get("ok") and a.get("error") == "oracle-timeout" and q["nmax"] > nm]
         if not idx:
             break
-        retry = model_batch_parallel([dict(reqs[i], nmax=nm) for i in idx], timeout=12)
+        retry = batch([dict(reqs[i], nmax=nm) for i in idx], 12)
         for i, a in zip(idx, retry):
             answers[i] = a
             if chk is not None and a.get("ok"):
@@ -484,8 +500,19 @@ def judge_inv(chk, rec, nmax):
                 chk.count("certificate:validated-for-all-n")
             else:
                 fb = cf["first_bad"]
-                problems.append(f"closed form leaves the linear system at n={fb['n']}: expected {fb['expected']} got {fb['got']}")
-                rec["cf_first_bad"] = fb
+                # is the value Lean computed from the extracted terms the value of f itself (sympy, exact)?
+                ext = sol.get("f_values_ext") or []
+                got = fb["got"] if not isinstance(fb["got"], list) else (fb["got"][0] if Fr(fb["got"][1]) == 0 else None)
+                same = (fb["n"] < len(ext) and ext[fb["n"]][0] == "q" and got is not None
+                        and Fr(ext[fb["n"]][1]) == Fr(got))
+                if fb["n"] < len(exact) or not same:
+                    # inside the window the oracle already agreed with f, or the term list does not evaluate to f:
+                    # the harness's shape extraction is at fault, not the code
+                    chk.count("certificate:term-shape-extraction-mismatch")
+                    chk.obligation("harness:term-shape", False, inv_blob(rec, {"first_bad": fb, "f_shape": sol.get("f_shape")}))
+                else:
+                    problems.append(f"closed form leaves the linear system at n={fb['n']}: expected {fb['expected']} got {fb['got']}")
+                    rec["cf_first_bad"] = fb
         if problems:
             rec["cert_problems"] = problems
             fb = rec.get("cf_first_bad")
@@ -675,6 +702,12 @@ def replay(path):
         return 2
     res = out["result"]
     chk = Check(PROP, "replay")
+
+    def _report(what, blob_, no_input=False):      # a replay prints, it does not write new replay files
+        chk.violations.append((what, path))
+        print(f"VIOLATION property={PROP} replay={path}" + (" no-failing-input-found" if no_input else ""))
+        print("  ->", what)
+    chk.violation = _report
     pj = res.get("source_program")
     names = json_vars(pj, set()) if pj else set()
     symbols = set(res.get("symbols", []))
